@@ -39,6 +39,34 @@ CLAIMED = {
                     'combination of missing, dead and live handles; is_alive verified against it.',
             'note': OPLEVEL + 'Trusted: Thread/Event contracts, join returns once the target loop exits (loop exit proved), '
                     'fair scheduling.', 'technique': TECH},
+    'C04': {'text': 'operation-level system invariant (one wake-up token per pending event when idle, at most one consumer '
+                    'thread): posts, one wake-up of run_event, next_rtc and __start are each verified to preserve it and to '
+                    'dispatch exactly the head of the queue, once.',
+            'note': OPLEVEL + 'Trusted: Queue/deque/Thread contracts, LockingDeque contracts (C16).', 'technique': TECH},
+    'C07': {'text': 'subscribe/publish/top/_subscribe/_publish with their spy wrappers verified for instrumented and '
+                    'un-instrumented objects, running or not yet started, event or signal-number arguments, every '
+                    'queue_type and arbitrary prior registry contents.',
+            'note': 'Trusted: ActiveFabric call-site contracts (C06), LockingDeque.appendleft (C16), Event.__init__ (C25); '
+                    '"thread running" read once per call.', 'technique': TECH},
+    'C10': {'text': 'timed post_fifo/post_lifo executed down to Thread construction (specification carries event, kind, '
+                    'count, deferral, period unchanged) and the nested thread function executed on a virtual clock with a '
+                    'loop invariant: exactly n posts, first after p iff deferred, exactly p apart; unbounded in n and p.',
+            'note': 'Trusted: time.sleep advances a virtual clock by p; Thread runs target(*args); nobody else clears the '
+                    'run event (absent cancellation).', 'technique': TECH},
+    'C11': {'text': 'cancel_event/cancel_events verified with a loop invariant over the examine-last/rotate idiom (ghost '
+                    'index maps): exactly the sources whose id/name EQUALS the argument (any equal object) are stopped and '
+                    'dropped, all others stay tracked and running.',
+            'note': 'Trusted: deque/Event contracts, uuid4 uniqueness. The timer thread\'s test-then-post window is a '
+                    'schedule question and not covered.', 'technique': TECH},
+    'C12': {'text': 'stop() verified for callers outside and inside the object\'s thread: flag clear, stop marker posted '
+                    'with a wake-up token, join precondition (consumer will wake and see the flag), every tracked source '
+                    'stopped and dropped (loop invariant over the snapshot), nobody else\'s run event touched; one '
+                    'iteration of run_event shows the woken thread exits.',
+            'note': OPLEVEL + 'Trusted: Thread.join/cancel_events(C11)/LockingDeque(C16) contracts, fair scheduling.',
+            'technique': TECH},
+    'C31': {'text': 'on the over-capacity path a timed post must raise with no timer thread started, the tracked list '
+                    'unchanged and no tracked run event touched.',
+            'note': 'Trusted: Thread contract (an unstarted thread runs nothing), deque contract.', 'technique': TECH},
     'C14': {'text': 'post_fifo, post_lifo, next_rtc, complete_circuit with all decorators inlined refine the operations of a '
                     'double-ended queue for every queue content, flag combination and both hosts.',
             'note': Q_NOTE, 'technique': TECH},
